@@ -1,3 +1,44 @@
 //! Safe-Rust verification hooks for this module (accessors/wrappers only; no logic).
 #![allow(unused_imports, dead_code)]
 use super::*;
+
+// ---- C10 (np_nts_h): call the private `SourceFilter::update_desired_poll` on a filter whose
+// poll-related fields are given and whose other fields are neutral constants (the function
+// reads/writes only `poll_score` and `desired_poll_interval`). Returns the new pair.
+pub fn update_desired_poll_hook(
+    desired_poll_interval: PollInterval,
+    poll_score: i32,
+    source_config: &SourceConfig,
+    algo_config: &AlgorithmConfig,
+    p: f64,
+    weight: f64,
+    measurement_period: f64,
+) -> (PollInterval, i32) {
+    let m = InternalMeasurement {
+        delay: (),
+        offset: NtpDuration::ZERO,
+        localtime: NtpTimestamp::default(),
+        root_delay: NtpDuration::ZERO,
+        root_dispersion: NtpDuration::ZERO,
+        leap: crate::packet::NtpLeapIndicator::NoWarning,
+        precision: 0,
+    };
+    let mut f: SourceFilter<(), FixedMeasurementNoise> = SourceFilter {
+        state: KalmanState {
+            state: Vector::new_vector([0.0, 0.0]),
+            uncertainty: Matrix::new([[0.0, 0.0], [0.0, 0.0]]),
+            time: NtpTimestamp::default(),
+        },
+        clock_wander: 0.0,
+        noise_estimator: FixedMeasurementNoise { precision: 0.0, accuracy: 0.0 },
+        precision_score: 0,
+        poll_score,
+        desired_poll_interval,
+        last_measurement: m,
+        last_monotime: tokio::time::Instant::now(),
+        prev_was_outlier: false,
+        last_iter: NtpTimestamp::default(),
+    };
+    f.update_desired_poll(source_config, algo_config, p, weight, measurement_period);
+    (f.desired_poll_interval, f.poll_score)
+}
